@@ -10,7 +10,7 @@ of the property on the implementation against a dict-of-int oracle:
 * len(selected) <= max_input_count;
 * the pool is unchanged: the list, the identity of every entry and a structural image of everything its bytes are
   computed from on every case; the CBOR bytes themselves (`utxo.to_cbor()`, 3 ms per entry under typeguard) for pools
-  of size <= 2 and every 8th case (every 2nd in the thorough tier);
+  of size <= 2 and every 8th case (every 4th in the thorough tier);
 * explicit failures are truthful: largest-first `InsufficientUTxOBalanceException` only when the pool cannot cover the
   request (or request + minimum change in min-change mode); `MaxInputCountExceededException` only when more than the
   limit inputs were selected / are needed by the largest-first order; nothing but a selection error escapes.
@@ -368,7 +368,7 @@ def in_domain(case):
 
 def check_select(ctx, case):
     """case = {kind: select, selector, pool, outputs, params, cpb, limit, fee, min, stream | seed}; returns info"""
-    full = len(case["pool"]) <= 2 or ctx.evals % (2 if ctx.thorough else 8) == 0
+    full = len(case["pool"]) <= 2 or ctx.evals % (4 if ctx.thorough else 8) == 0
     res, info = run_impl(case, full_snap=full)
     if full:
         ctx.count("pool-snapshot:cbor-bytes")
@@ -708,7 +708,7 @@ def run(ctx):
             return
 
     # ---- (D) random pools up to size 10
-    for _ in range(ctx.budget(2500, 60000)):
+    for _ in range(ctx.budget(2500, 40000)):
         n = rng.choice([0, 1, 2, 3, 4, 5, 5, 6, 7, 8, 9, 10])
         amounts = [rand_amount(rng, stored_zero=True) for _ in range(n)]
         params = rng.choice(PARAM_SETS)
